@@ -103,6 +103,11 @@ CHECKS = {
     technique='runtime monitoring: the bundled fast generator scripts run as real subprocesses on generated repositories; their output judged by the real verifier, the independent reader/post-condition and a semantic before/after diff around `gemato update -p ebuild`',
     text='For generated repositories with the standard layout (with and without pre-existing package Manifests carrying DIST entries) gen_fast_metamanifest.py on the repository or gen_fast_manifest.py on one package directory must exit 0, the result must pass `gemato verify`, cover every file exactly once with true size/BLAKE2B/SHA512, be left semantically unchanged (TIMESTAMP aside) by `gemato update -p ebuild`, and after 0..5 edits an update must yield a tree that verifies and describes the files exactly.',
     note='Domain: portable names, ignored directories absent, and the standard directories the meta script hard-codes present (otherwise it exits non-zero). For single package directories the no-op/edit update is only judged when files/ has no sub-directories (the ebuild profile applied at a package root would otherwise want extra Manifests).'),
+ 'C18': dict(
+    category='exploration', design='3 C18',
+    technique='runtime monitoring: totality monitor around gemato.cli.main over the generated trees/texts/repositories of the other checks x command battery; escaped exceptions classified (library / genuine OSError re-probed / internal) and keyed by exception type + innermost gemato frame',
+    text='Generated trees with up to four mutations from all classes (incl. odd ones: entries naming directories, entries beneath a file, duplicate IGNOREs, unsupported hashes, unreferenced valid/invalid/undecodable Manifests), C09 grammar/mutation texts and hand-picked odd texts planted as top-level Manifest, and odd ebuild repositories are run through verify, verify -k, verify SUBDIR, update, update SUBDIR for every sub-directory, update -p PROFILE and create -p PROFILE: main() must return 0 or 1 or raise argparse SystemExit or an OSError whose failing access can be reproduced.',
+    note='Mechanism-keyed known findings (8): NUL / lone-surrogate paths reaching os.open/open, old-ebuild AUX assertion, NotImplementedError for now-ignored parent entries, the Unlinked-but-updated assertion. Non-UTF-8 content in plain files named Manifest is outside the domain.'),
 }
 
 def main():
@@ -122,7 +127,7 @@ def main():
             'technique': c['technique'],
         })
     props = [json.loads(l)['id'] for l in open(os.path.join(HERE, 'properties.jsonl'))]
-    na = [{'property_id': p, 'reason': 'check not built yet in this session (planned, see DESIGN.md section 3); not a claim that the technique cannot apply'}
+    na = [{'property_id': p, 'reason': 'no check registered'}
           for p in props if p not in CHECKS]
     m = {
         'version': 1,
